@@ -1,4 +1,4 @@
-\* depth-bounded lock-step: every symbol sequence up to inst.depth, four small instances
+\* depth-bounded lock-step: every symbol sequence up to inst.depth, nine small instances
 SPECIFICATION Spec
 CONSTANT Instances <- Quick
 VIEW ViewBounded
